@@ -459,7 +459,7 @@ type checkResult struct {
 func checkHistory(h []record, paranoid bool) checkResult {
 	res := checkResult{}
 	res.own = checkOwn(h, 400000)
-	res.porc = checkPorcupine(h, 300*time.Millisecond)
+	res.porc = checkPorcupine(h, 100*time.Millisecond)
 	if res.own == linIllegal && res.porc == linUnknown {
 		res.porc = checkPorcupine(h, 30*time.Second)
 	}
